@@ -73,6 +73,13 @@ func (o *Operations) Update(
 			return []*tar.Header{}, err
 		}
 
+		// Only entries that are in the index can be updated: a record for anything else (i.e. written through a handle
+		// whose entry has been renamed or removed meanwhile) matches no row, so the index would lose track of the end of
+		// the tape and every later operation would fail
+		if _, err := o.metadata.Metadata.GetHeader(context.Background(), file.Path); err != nil {
+			return []*tar.Header{}, err
+		}
+
 		hdr.Name = file.Path
 		hdr.Format = tar.FormatPAX
 		if hdr.PAXRecords == nil {
